@@ -221,6 +221,25 @@ def File.writeSkip {P : Type} (f : File P) : List (String × Snap P) → File P
     | none => File.writeSkip f r
     | some f' => File.writeSkip f' r
 
+/-- `del db[(cycle, node, label)]` = `del h5db[name]`: the group goes, nothing else; `none` = KeyError (no such group) -/
+def File.delete {P : Type} (f : File P) (name : String) : Option (File P) :=
+  match f.get name with
+  | none => none
+  | some _ => some (f.filter (fun p => p.1 ≠ name))
+
+/-- what a program does to one open database file -/
+inductive FOp (P : Type)
+  | write (name : String) (s : Snap P)
+  | delete (name : String)
+
+/-- one operation; a refused one (occupied address: ValueError; absent group: KeyError) leaves the file as it was -/
+def File.step {P : Type} (f : File P) : FOp P → File P
+  | .write k s => (f.write k s).getD f
+  | .delete k => (f.delete k).getD f
+
+/-- any interleaving of writes, deletes and re-writes (loads do not change the file: `Database.load` only reads) -/
+def File.run {P : Type} (f : File P) (ops : List (FOp P)) : File P := ops.foldl File.step f
+
 /-! ## parameters on load: `_initComps` → `_readParams` → `_assignBlueprintsParams` -/
 
 /-- key of the `groupedComps` dictionary: `_initComps` files every object under its class NAME (the string stored in
